@@ -6,7 +6,7 @@ from fractions import Fraction
 
 from ..keval import KEval, Ref, Cond, Const, Top
 from ..poly import Poly, ZERO, ONE
-from ..forms import value_poly, real_guards, short, acc_name_of, is_full_range, norm_cond, CMP, AND, OR
+from ..forms import forwarded_values, cond_equiv, value_poly, real_guards, short, acc_name_of, is_full_range, norm_cond, CMP, AND, OR
 from .. import wire
 from ..model import norm_text, AnchorMissing
 from ..controls import Control
@@ -54,17 +54,22 @@ def store_forms(ctx, rule, K, key, args, out_idx_forms, what, loops_over):
     sts = S.stores_to(out[0])
     got = {}
     ok = True
-    for s in sts:
+    # later stores overwrite earlier ones at the same place; a value that reads the array back (truncate in place, ...) is expressed through what was stored there
+    for s, val in forwarded_values(sts, {out[0], getattr(S.env.get(out[0]), "origin", None) or out[0]} | {x.arr for x in sts}):
         lv = tuple(S_(l.var) for l in s.loops)
-        ok = ok and len(s.loops) == len(loops_over) and all(is_full_range(l, [e]) for l, e in zip(s.loops, loops_over)) and s.idx[:len(lv)] == lv and s.op == "=" and not real_guards(s.guards)
-        got[s.idx[len(lv):]] = (value_poly(s.value), lv)
+        ok = ok and len(s.loops) == len(loops_over) and all(is_full_range(l, [e]) or is_full_range(l, [S_(f"{out[0]}.shape[0]")]) for l, e in zip(s.loops, loops_over)) and s.idx[:len(lv)] == lv and s.op == "=" and not real_guards(s.guards)
+        got[s.idx[len(lv):]] = (val, tuple(S_("k%d" % i) for i in range(len(lv))), lv)
     if not ok or not sts:
         ctx.ob(rule, key + ":loops", False, where=f, node=sts[0].node if sts else f.node, construct="; ".join(repr(s)[:100] for s in sts[:2]),
                message="the output must be assigned, unguarded, at the loop indices for every point of the input grid")
         return None
-    lv = list(got.values())[0][1]
-    want = out_idx_forms(*lv)
-    good = set(got) == set(want) and all(got[k][0] == want[k] for k in want)
+    # every final store is compared in its own loop variables
+    good = True
+    want = {}
+    for k_, (val, _, lv) in got.items():
+        want = out_idx_forms(*lv)
+        good = good and k_ in want and val == want[k_]
+    good = good and set(got) == set(want)
     ctx.ob(rule, key, good, where=f, node=sts[0].node, construct="; ".join(f"[.., {', '.join(map(repr, k))}] = {short(v[0], 100)}" for k, v in sorted(got.items(), key=repr)),
            message=f"{what}: expected " + "; ".join(f"[.., {', '.join(map(repr, k))}] = {short(v, 100)}" for k, v in sorted(want.items(), key=repr)),
            detail={repr(k): repr(v) for k, v in want.items()})
@@ -83,10 +88,11 @@ def mask_constructor(ctx, K, key, extra, want_cond, init_full_true=True):
         ctx.ob(rule, key, None, message=f"expected one returned array, got {out}")
         return
     sts = S.stores_to(out[0])
-    ok = len(sts) == 1 and len(sts[0].loops) == 2 and is_full_range(sts[0].loops[0], [H]) and is_full_range(sts[0].loops[1], [W])
+    # one or several stores (if / elif arms) in the same full (y, x) nest, each unmasking [y, x]
+    ok = len(sts) >= 1 and all(len(s.loops) == 2 and is_full_range(s.loops[0], [H]) and is_full_range(s.loops[1], [W]) for s in sts) and len({tuple(id(l) for l in s.loops) for s in sts}) == 1
     if ok:
         y, x = S_(sts[0].loops[0].var), S_(sts[0].loops[1].var)
-        ok = sts[0].idx == (y, x) and isinstance(sts[0].value, Const) and sts[0].value.v is False and sts[0].op == "="
+        ok = all(s.idx == (y, x) and isinstance(s.value, Const) and s.value.v is False and s.op == "=" for s in sts)
     ctx.ob(rule, key + ":store", ok, where=f, node=sts[0].node if sts else f.node, construct=repr(sts[0])[:140] if sts else "no store",
            message="the mask must be unmasked (set False) at [y, x] inside the full (y, x) nest, and nowhere else")
     if not ok:
@@ -99,11 +105,15 @@ def mask_constructor(ctx, K, key, extra, want_cond, init_full_true=True):
     # pixel-centre offsets from the requested centre (mask origin frame): canonical forms
     ys = (y - CY) * s0 + S_("cy")
     xs = (x - CX) * s1 - S_("cx")
-    gs = real_guards(sts[0].guards)
-    got = norm_cond(AND(*gs)) if len(gs) != 1 else norm_cond(gs[0])
-    want = norm_cond(want_cond(ys, xs))
-    ctx.ob(rule, key + ":inequality", got == want, where=f, node=sts[0].node, construct=str(got)[:300],
-           message=f"the unmasking condition must be the documented radial inequality evaluated at the pixel centre relative to `centre`; expected {str(want)[:300]}")
+    arms = []
+    for s in sts:
+        gs = real_guards(s.guards)
+        arms.append(AND(*gs) if len(gs) != 1 else gs[0])
+    got_c = OR(*arms) if len(arms) > 1 else arms[0]
+    want_c = want_cond(ys, xs)
+    got, want = norm_cond(got_c), norm_cond(want_c)
+    ctx.ob(rule, key + ":inequality", got == want or cond_equiv(got_c, want_c), where=f, node=sts[0].node, construct=str(got)[:300],
+           message=f"the unmasking condition (the union of the arms that unmask) must be the documented radial inequality evaluated at the pixel centre relative to `centre`; expected {str(want)[:300]}")
 
 
 def ell(ys, xs, angle, q):
